@@ -134,6 +134,25 @@ def m_positive_integer(e,run,a,f):
         if first&0x80: raise DerFail('NegativeValue')
     elif run.branch_bool(Bool((first&0x80)!=0),'der.negative'): raise DerFail('NegativeValue')
     return inp(val)
+def m_small_nonneg(e,run,a,f):
+    # derp::small_nonnegative_integer = nonnegative_integer(input, 0) read as exactly one byte
+    val=expect(run,rd_of(a[0]),'Integer')
+    if not val: raise DerFail('Read')
+    first=val[0]
+    if is_b(run,first,0):
+        if len(val)==1: return Int(8,False,0)
+        second=val[1]
+        if isinstance(second,int):
+            if second&0x80==0: raise DerFail('LeadingZero')
+        elif run.branch_bool(Bool((second&0x80)==0),'der.leadzero'): raise DerFail('LeadingZero')
+        rest=val[1:]
+    else:
+        if isinstance(first,int):
+            if first&0x80: raise DerFail('NegativeValue')
+        elif run.branch_bool(Bool((first&0x80)!=0),'der.negative'): raise DerFail('NegativeValue')
+        rest=val
+    if len(rest)!=1: raise DerFail('Read')
+    x=rest[0]; return Int(8,False,x)
 def m_derp_from_eoi(e,run,a,f): return derr('UnexpectedEnd')
 # ---- writer
 def der_target(v): return deref(deref(v).p)
@@ -184,6 +203,7 @@ def register(E):
     M(r'^(derp::)?read_null$',wrapder(m_read_null)); M(r'^(derp::)?bit_string_with_no_unused_bits$',wrapder(m_bit_string))
     M(r'^(derp::)?nested$',m_nested); M(r'^(derp::)?positive_integer$',wrapder(m_positive_integer))
     M(r'^<derp::Error as From<(untrusted::)?EndOfInput>>::from$',m_derp_from_eoi)
+    M(r'^(derp::)?small_nonnegative_integer$',wrapder(m_small_nonneg))
     M(r'^(derp::)?Der::new$',m_der_new); M(r'^(derp::)?Der::element$',m_der_element()); M(r'^(derp::)?Der::oid$',m_der_element(fixed='Oid'))
     M(r'^(derp::)?Der::integer$',m_der_element(fixed='Integer')); M(r'^(derp::)?Der::octet_string$',m_der_element(fixed='OctetString'))
     M(r'^(derp::)?Der::null$',m_der_null); M(r'^(derp::)?Der::bit_string$',m_der_bit_string); M(r'^(derp::)?Der::positive_integer$',m_der_positive_integer)
